@@ -69,7 +69,6 @@ func runInBubble(outer *testing.T, r *run) bool {
 }
 
 func property(outer *testing.T, rec *vstats.Recorder, freeRun bool) func(*rapid.T) {
-	readAtEOFListed := vstats.KnownListed("C15", keyReadAtEOF)
 	return func(t *rapid.T) {
 		c := rec.Begin()
 		p := genProgram(t)
@@ -77,18 +76,12 @@ func property(outer *testing.T, rec *vstats.Recorder, freeRun bool) func(*rapid.
 		c.Add(rendered)
 
 		r := newRun(p, freeRun)
-		r.knownReadAtEOF = readAtEOFListed
 		if !runInBubble(outer, r) {
 			t.Fatalf("%s\n  %s", r.hangVerdict(), rendered)
 		}
 		if v := r.judge(); v != "" {
 			t.Fatalf("%s\n  %s", v, rendered)
 		}
-		for _, k := range r.excluded {
-			rec.Excluded(k)
-			rec.KnownFinding(k, "property=C15 key="+k+" ReadAt on a buffer with a failing task returned io.EOF instead of the task's error: "+rendered)
-		}
-
 		// Statistics.
 		consumers, readers, early, discards := 0, 0, 0, 0
 		complete := 0
